@@ -261,10 +261,23 @@ func checkC19(w *World, r *Result) {
 	param := fi.Decl.Type.Params.List[0].Names[0]
 	slice := param.Name
 
-	// ---- sorting passes
+	// ---- pipeline stages, in statement order: sorts, optional filtering dedupe, emission
 	var passes []sortPass
 	var loop *ast.RangeStmt
 	reassigned := false
+	cur := slice
+	deduped := false
+	var dedupPos ast.Node
+	hasContentWrite := func(rs *ast.RangeStmt) bool {
+		found := false
+		ast.Inspect(rs.Body, func(n ast.Node) bool {
+			if sel, ok := n.(*ast.SelectorExpr); ok && sel.Sel.Name == "Content" {
+				found = true
+			}
+			return true
+		})
+		return found
+	}
 	for _, st := range fi.Decl.Body.List {
 		switch s := st.(type) {
 		case *ast.ExprStmt:
@@ -275,12 +288,15 @@ func checkC19(w *World, r *Result) {
 			full := fullName(calleeOf(info, call))
 			switch full {
 			case "sort.Slice", "sort.SliceStable", "slices.SortFunc", "slices.SortStableFunc":
-				if len(call.Args) != 2 || es(call.Args[0]) != slice {
+				if len(call.Args) != 2 || es(call.Args[0]) != cur {
 					continue
 				}
 				if loop != nil {
 					r.bad("ORD-5", name, full+" after the emitting loop", w.Pos(call.Pos()), "sorting after emission has no effect on the output")
 					continue
+				}
+				if deduped {
+					r.bad("ORD-5", name, full+" after deduplication", w.Pos(call.Pos()), "duplicates are removed before this sorting pass: which copy of an ID survives (and hence its priority group and position) depends on the order in which the declarations were supplied")
 				}
 				fl, ok := call.Args[1].(*ast.FuncLit)
 				if !ok {
@@ -289,24 +305,53 @@ func checkC19(w *World, r *Result) {
 				if strings.HasPrefix(full, "slices.") {
 					Undecided("slices.SortFunc comparators (three-way) are not modelled")
 				}
-				t, err := comparatorTable(info, slice, fl)
+				t, err := comparatorTable(info, cur, fl)
 				if err != "" {
 					Undecided("comparator at %s cannot be evaluated over the ordering domain: %s", w.Pos(call.Pos()), err)
 				}
 				passes = append(passes, sortPass{call: call, stable: strings.Contains(full, "Stable"), table: t, name: full})
 			}
 		case *ast.RangeStmt:
-			if es(s.X) == slice && loop == nil {
-				loop = s
+			if es(s.X) != cur || loop != nil {
+				continue
 			}
+			if hasContentWrite(s) {
+				loop = s
+				continue
+			}
+			// filtering loop: `if !seen[d.ID] { seen[d.ID] = true; Y = append(Y, d) }`
+			apps := appendStmts(info, s.Body, "")
+			if len(apps) == 1 {
+				var guard *ast.IfStmt
+				ast.Inspect(s.Body, func(n ast.Node) bool {
+					if is, ok := n.(*ast.IfStmt); ok && is.Body.Pos() <= apps[0].Pos() && apps[0].End() <= is.Body.End() {
+						guard = is
+					}
+					return true
+				})
+				elemName := ""
+				if id := identOf(s.Value); id != nil {
+					elemName = id.Name
+				}
+				if guard != nil {
+					if set, okk := membershipTest(info, guard, elemName); set != "" && okk {
+						deduped = true
+						dedupPos = s
+						cur = es(apps[0].Lhs[0])
+						continue
+					}
+				}
+			}
+			Undecided("loop over %s at %s neither emits nor filters by ID (shape not recognised)", cur, w.Pos(s.Pos()))
 		case *ast.AssignStmt:
 			for _, l := range s.Lhs {
-				if es(l) == slice {
+				if es(l) == slice && s.Tok != token.DEFINE {
 					reassigned = true
 				}
 			}
 		}
 	}
+	_ = dedupPos
 	if len(passes) == 0 {
 		Undecided("no sort of the declaration slice found in WriteDeclarations (shape not recognised)")
 	}
@@ -372,10 +417,10 @@ func checkC19(w *World, r *Result) {
 		"the lexicographic composition of the passes agrees with the contract on every pair of the domain", "the sorting passes do not realise 'priority first, then increasing ID': "+mismatch)
 
 	// ---- emission loop
-	checkEmission(w, r, fi, loop, slice)
+	checkEmission(w, r, fi, loop, cur, deduped)
 }
 
-func checkEmission(w *World, r *Result, fi *FuncInfo, loop *ast.RangeStmt, slice string) {
+func checkEmission(w *World, r *Result, fi *FuncInfo, loop *ast.RangeStmt, slice string, deduped bool) {
 	info := fi.Pkg.TypesInfo
 	name := fi.Name
 	val := identOf(loop.Value)
@@ -448,6 +493,23 @@ func checkEmission(w *World, r *Result, fi *FuncInfo, loop *ast.RangeStmt, slice
 				guard = is
 				break
 			}
+		}
+		if deduped && guard == nil {
+			r.ok("PTH-C19a", name, cons, w.Pos(wr.call.Pos()), "unconditional write of a slice that an earlier loop filtered by a membership test keyed by ID", true)
+			newline := false
+			for _, st := range loop.Body.List {
+				if st.Pos() > wr.call.Pos() {
+					if e, ok := st.(*ast.ExprStmt); ok {
+						if call, ok := e.X.(*ast.CallExpr); ok && len(call.Args) >= 1 {
+							if tv, ok := info.Types[call.Args[len(call.Args)-1]]; ok && tv.Value != nil {
+								newline = newline || tv.Value.ExactString() == "10" || tv.Value.ExactString() == `"\n"`
+							}
+						}
+					}
+				}
+			}
+			r.cond(newline, "PTH-C19a", name, "newline after content", w.Pos(wr.call.Pos()), "a newline write follows the content", "no newline is written after the content")
+			continue
 		}
 		if guard == nil || block == nil {
 			r.bad("PTH-C19a", name, cons, w.Pos(wr.call.Pos()), "the content is written unconditionally: a repeated ID is emitted more than once")
